@@ -104,4 +104,80 @@ def handlePIPECC (version sm tr hr refl cs ar clock conv take gidx objs : String
       s!" G{i}=" ++ showRes (catchGradualValue ieeeCasts A CA SA driverFuel 0.0 st i os)
         (fun a => s!"{Rosu.ConvOsu.Wire.h64 a.stars},{a.nFruits},{a.nDroplets},{a.nTinyDroplets}"))
 
+/-! ## `OSLDC`: one osu! slider with the curve inside the model
+
+`OSLDC <version> <slider_multiplier> <tick_rate> <start:beat_len:sv:generate_ticks:spans> <expected
+dist|-> <control points x~y~type,…> <lazy_travel_time>` → what `OsuSlider::new` stores and what
+`convert_objects` (`Model/ConvOsu.lean`, OCONV lines) takes as INPUT from the curve:
+`<end_time>|<nested objects kind:time:x:y, canonical order>|<lazy_end_pos x:y>|<dist>`.
+The nested positions are `path.position_at(e.path_progress)` (ticks, repeats) and
+`end_path_pos = path.position_at(obj_progress_at(1.0))` (tail); `lazy_end_pos =
+path.position_at(end_time_min)` with `end_time_min` folded from `lazy_travel_time / span_duration` by
+the two `%` operations.  `lazy_travel_time` itself (a function of the nested times only, modelled by
+`ConvOsu.lazyTravelTime`, LTT lines) is handed in. -/
+
+/-- `x % m` on `f64` (`fmod`) for `m ∈ {1.0, 2.0}`: exact (`x / m`, `trunc`, `t · m` and the
+subtraction are all exact), the sign of a zero result follows `x`. -/
+def fmodPow2 (x m : Float) : Float :=
+  if x.isNaN || x.isInf then Float.ofBits 0x7FF8000000000000
+  else
+    let q := x / m
+    let t := if q >= 0.0 then q.floor else q.ceil
+    let r := x - t * m
+    if r == 0.0 then (if x.toBits >= 0x8000000000000000 then -0.0 else 0.0) else r
+
+def showNestedPos (l : List (Nat × Float × Rosu.Curve.Pos Float32)) : List String :=
+  let keyed := l.map fun (k, t, q) =>
+    (Rosu.SliderEvents.totalKey t, k, q.x.toBits.toNat, q.y.toBits.toNat,
+      s!"{k}:{Rosu.SliderEvents.showF t}:{Rosu.Curve.Wire.showPos q}")
+  let sorted := keyed.mergeSort fun a b =>
+    a.1 < b.1 || (a.1 == b.1 && (a.2.1 < b.2.1 || (a.2.1 == b.2.1 &&
+      (a.2.2.1 < b.2.2.1 || (a.2.2.1 == b.2.2.1 && a.2.2.2.1 ≤ b.2.2.2.1)))))
+  sorted.map fun x => x.2.2.2.2
+
+def handleOSLDC (version sm tr slider expected cps ltt : String) : String :=
+  match slider.splitOn ":" with
+  | [start, bl, sv, gen, spans] =>
+    let pts := ((Rosu.Wire.splitList cps ",").map parseCurveCP).toArray
+    let exp : Option Float := if expected == "-" then none else some (Rosu.Stack.Wire.f64 expected)
+    let C := Rosu.Curve.Wire.ieee
+    match Rosu.Curve.curveNew C Rosu.Curve.Wire.driverFuel true pts exp #[] Rosu.Curve.emptyBez with
+    | .error e => Rosu.Curve.Wire.showErr e
+    | .ok (c, _) =>
+      let dist := Rosu.Curve.dist C c.lengths
+      match Rosu.SliderEvents.parseSliderIn version sm tr
+          [start, bl, sv, gen, toString dist.toBits.toNat, spans] with
+      | none => "bad-slider"
+      | some si =>
+        let A := Rosu.SliderEvents.floatArith
+        let p := Rosu.SliderEvents.osuParams A si
+        match p.events A Rosu.SliderEvents.driverFuel with
+        | .clampPanic => "PANIC"
+        | .outOfFuel => "FUEL"
+        | .ok evs =>
+          let spanCount := Float.ofNat si.spans
+          let pos (pr : Float) : Rosu.Curve.Pos Float32 :=
+            match Rosu.Curve.positionAt C c pr with
+            | .ok q => q
+            | .error _ => ⟨Float32.ofBits 0x7FC00000, Float32.ofBits 0x7FC00000⟩
+          -- `obj_progress_at(1.0)`
+          let p1 := fmodPow2 (1.0 * spanCount) 1.0
+          let spanAt1 := Rosu.SliderEvents.f64ToI32 (1.0 * spanCount)
+          let endPathPos := pos (if spanAt1.tmod 2 == 1 then 1.0 - p1 else p1)
+          let nested := evs.filterMap fun e =>
+            match Rosu.SliderEvents.osuNestedOf A p e with
+            | none => none
+            | some n =>
+              some (Rosu.SliderEvents.nestedTag n.kind, n.time,
+                match n.kind with
+                | .tail => endPathPos
+                | _ => pos e.progress)
+          let lazyTime := Rosu.SliderEvents.flt (Rosu.Wire.nat! ltt)
+          let etm := lazyTime / p.spanDur
+          let etm := if fmodPow2 etm 2.0 >= 1.0 then 1.0 - fmodPow2 etm 1.0 else fmodPow2 etm 1.0
+          let lazyEnd := pos etm
+          s!"{Rosu.SliderEvents.showF p.endTime}|" ++ Rosu.SliderEvents.showLong (showNestedPos nested)
+            ++ s!"|{Rosu.Curve.Wire.showPos lazyEnd}|{Rosu.SliderEvents.showF dist}"
+  | _ => "bad-slider"
+
 end Rosu.PipelineCatch.Wire
